@@ -80,7 +80,7 @@ FORMS = {"free1": ("{}", 1), "free2": ("{}", 2), "escape": ("%{}", 2), "escape-t
          "hi-valid": ("%C3%A9{}", 1), "hi-truncated": ("%E2%98{}", 1), "hi-truncated4": ("%F0%9F%98{}", 1), "hi-invalid": ("{}%FF", 1)}
 
 
-HOSTS = {"h": "h", "idn": "www.\u2603.net", "idn-first": "b\u00fccher.example", "idn-port": "a.b.\u00e9x.fr:8080", "ipv6": "[::1]:8080", "user": "u@h"}
+HOSTS = {"h": "h", "idn": "www.\u2603.net", "idn-first": "b\u00fccher.example", "idn-port": "a.b.\u00e9x.fr:8080", "ipv6": "[::1]:8080", "user": "u@h", "user-ipv6": "u:p@[::1]:8080", "user-idn": "u@b\u00fccher.example:81"}
 
 
 def body_iri_uri(I, X, comp="path", form="free1", host="h"):
@@ -168,6 +168,14 @@ def body_host_port(I, X, scheme="http", n=2, skel="{}"):
     return ok, {"url": url}
 
 
+def body_query_mapping(I, X, nk=1, nv=1):
+    """a query mapping given to the environ builder is recovered exactly: urls._urlencode (what
+    EnvironBuilder uses for a query mapping) followed by Request.args"""
+    from harness.c02 import body_urlencoded
+
+    return body_urlencoded(I, X, nk=nk, nv=nv, repeated=True, via="args")
+
+
 def make_stubs():
     from harness.c07 import make_stubs as m
 
@@ -195,6 +203,9 @@ def obligations(tier, seed):
                 continue
             out.append({"name": f"current_url[n={n},query={wq}]", "body": "body_current_url", "params": {"n": n, "with_query": wq},
                         "opts": {"budget_s": 900, "ctx": {"max_cp": 0x7E}}, "witness": n == 1 and wq})
+    for nk, nv in ([(1, 1), (2, 0)] if quick else [(1, 1), (2, 0), (2, 1), (1, 2)]):
+        out.append({"name": f"query_mapping[k={nk},v={nv}]", "body": "body_query_mapping", "params": {"nk": nk, "nv": nv},
+                    "opts": {"budget_s": 900, "ctx": {"max_cp": 0x7FF}, "stubs_from": "harness.c02"}})
     for scheme in ("http", "https", "ws", "wss"):
         for skel, ns in (("{}", [1, 2, 3]), ("4{}", [2]), ("{}0", [1])):
             for n in ns:
